@@ -14,7 +14,7 @@
 //! node, runs a real `ord::Index` over them and prints the canonicalised table dump in the format of
 //! Inscr.emit_state.
 use hxlib::*;
-use std::collections::{BTreeMap, BTreeSet, HashMap};
+use std::collections::{BTreeSet, HashMap};
 
 mod gen;
 mod oracle;
@@ -741,6 +741,3 @@ fn main() {
   }
   std::process::exit(0);
 }
-
-#[allow(dead_code)]
-pub fn unused(_: BTreeMap<u8, u8>, _: BTreeSet<u8>) {}
